@@ -670,6 +670,10 @@ func addHostile(r *simkit.RNG, p *Pkg, i, np int, rootRun bool) {
 		{Path: "h-abs-root", Kind: "link", Target: "/"},
 		{Path: "hd/h-leak", Kind: "link", Target: "h-top/../../victim"},
 		{Path: ".terraformignore", Kind: "fifo", Mode: 0o644},
+		// links that name the very directory the fetcher was told to fill: inside the package
+		// while it is being examined, dangling once the directory has its final name
+		{Path: "h-tmp-rel", Kind: "link", Target: "../@TMPBASE@/main.tf"},
+		{Path: "h-tmp-abs", Kind: "link", Target: "@TMPABS@/main.tf"},
 	}
 	n := r.Range(1, 3)
 	if r.Chance(1, 3) {
